@@ -291,6 +291,14 @@ def emit_coq(defs):
     o.append("  apply Forall_nil.")
     o.append("Qed.")
     o.append("")
+    o.append("(** the denotation of each name is the real-valued definition of that name *)")
+    o.append("Lemma den_table_ok : Forall (fun p => den (fst p) = snd p) den_table.")
+    o.append("Proof.")
+    o.append("  unfold den_table.")
+    o.append("  repeat (apply Forall_cons; [cbv [den lookup den_table fst snd String.eqb Ascii.eqb Bool.eqb]; reflexivity|]).")
+    o.append("  apply Forall_nil.")
+    o.append("Qed.")
+    o.append("")
     o.append("(** unfolds every constant down to literals (dependents first) *)")
     o.append("Ltac unfold_units := unfold " + ", ".join(PREFIX + n for n in reversed(dependency_order(defs))) + " in *.")
     o.append("")
